@@ -85,7 +85,8 @@ def run(P, chk, tier):
         h, cap = header_of(c)
         maxh = max(maxh, h)
         if cap is None:
-            chk.site(r1, f, ir.loc(c), pp(c)[:60], False, "capacity argument is not a constant")
+            chk.undecided(r1, f, ir.loc(c), pp(c)[:60], "the capacity handed to build_hostname is not a constant at this call, so the "
+                          "configuration table cannot be evaluated for it")
             continue
         bad = []
         ncfg = 0
